@@ -93,6 +93,8 @@ class Contract:
         self.self_type = self_type
         self.assumptions = list(assumptions)
         self.canary = canary
+        # solver strategy only (no semantic content): try the derived bag/cardinality hints before a full plain attempt
+        self.prefer_hints = False
         self.nloops = nloops
         self.defaults = dict(defaults or {})
         self.mutants = list(mutants)
